@@ -550,3 +550,151 @@ def fat_image(slices, align=12):
         out += b"\0" * (o - len(out))
         out += s
     return bytes(out), [(8 + 20 * i + 8, 8 + 20 * i + 12) for i in range(n)]
+
+
+# ------------------------------------------------------------- tiny images with the positions of their table descriptors
+def _setfields(image, fields, values):
+    """a copy of the image with the named descriptor fields rewritten; fields: name -> (file offset, width, byte order)"""
+    m = bytearray(image)
+    for k, v in values.items():
+        off, w, order = fields[k]
+        m[off:off + w] = (v & ((1 << (8 * w)) - 1)).to_bytes(w, order)
+    return bytes(m)
+
+
+def tiny_pe(rng, plus):
+    """a PE image of about half a kilobyte: DOS header, PE/COFF header, optional header with 16 data directories, two
+    section headers, 32 bytes of raw data per section (8 bytes of content, zero fill; SectionAlignment == FileAlignment == 16: below the page size the
+    two must be equal, PE/COFF specification, optional header windows-specific fields).  The ImportTable / TLS / LoadConfig
+    directories are empty.  Returns (bytes, fields, true) - fields: name -> (file offset, width, 'little') of every field
+    that describes a table (e_lfanew, NumberOfSections, SizeOfOptionalHeader, NumberOfRvaAndSizes, dir<i>.rva / dir<i>.size,
+    sec<i>.<field>), true: the values of the intact file plus 'rvas' (section RVAs) and 'SizeOfImage'."""
+    f, names = OPT64 if plus else OPT32
+    lfanew, nsec, ndirs, al = 64, 2, 16, 16
+    optsize = struct.calcsize(f) + 8 * ndirs
+    hdrsz = (lfanew + 24 + optsize + 40 * nsec + al - 1) // al * al
+    secs, raw, rva = [], hdrsz, hdrsz
+    for i in range(nsec):
+        secs.append(dict(Name=(b".text", b".data")[i].ljust(8, b"\0"), VirtualSize=rng.randrange(17, 33), RVA=rva, SizeOfRawData=32, PointerToRawData=raw,
+                         PointerToRelocations=0, PointerToLineNumbers=0, NumberOfRelocations=0, NumberOfLineNumbers=0,
+                         Characteristics=(0x60000020, 0xC0000040)[i]))
+        raw += 32
+        rva += 32
+    op = {n: 0 for n in names}
+    op.update(Magic=0x20B if plus else 0x10B, MajorLinkerVersion=14, SizeOfCode=32, SizeOfInitializedData=32, AddressOfEntryPoint=secs[0]["RVA"],
+              BaseOfCode=secs[0]["RVA"], ImageBase=rng.randrange(1, 0x7E00) << 16, SectionAlignment=al, FileAlignment=al, MajorOperatingSystemVersion=6,
+              MajorSubsystemVersion=6, SizeOfImage=rva, SizeOfHeaders=hdrsz, Subsystem=3, DllCharacteristics=0x8160, SizeOfStackReserve=0x100000,
+              SizeOfStackCommit=0x1000, SizeOfHeapReserve=0x100000, SizeOfHeapCommit=0x1000, NumberOfRvaAndSizes=ndirs)
+    if not plus:
+        op["BaseOfData"] = secs[1]["RVA"]
+    co = dict(Signature=0x4550, Machine=0x8664 if plus else 0x14C, NumberOfSections=nsec, TimeDateStamp=rng.getrandbits(31), PointerToSymbolTable=0,
+              NumberOfSymbols=0, SizeOfOptionalHeader=optsize, Characteristics=0x22 if plus else 0x102)
+    img = bytearray(raw)
+    img[0:64] = b"MZ" + bytes(58) + struct.pack("<I", lfanew)
+    struct.pack_into("<IHHIIIHH", img, lfanew, *[co[n] for n in COFF_FIELDS])
+    struct.pack_into(f, img, lfanew + 24, *[op[n] for n in names])
+    d = lfanew + 24 + struct.calcsize(f)
+    for s in secs:
+        # a few bytes of content, zero fill
+        img[s["PointerToRawData"]:s["PointerToRawData"] + 8] = rng.randbytes(8)
+    so = lfanew + 24 + optsize
+    fields = {"e_lfanew": (60, 4, "little"), "NumberOfSections": (lfanew + 6, 2, "little"), "SizeOfOptionalHeader": (lfanew + 20, 2, "little"),
+              "NumberOfRvaAndSizes": (d - 4, 4, "little"), "SizeOfImage": (lfanew + 24 + 56, 4, "little"), "SizeOfHeaders": (lfanew + 24 + 60, 4, "little")}
+    for i in range(ndirs):
+        fields["dir%d.rva" % i] = (d + 8 * i, 4, "little")
+        fields["dir%d.size" % i] = (d + 8 * i + 4, 4, "little")
+    for i, s in enumerate(secs):
+        struct.pack_into("<8sIIIIIIHHI", img, so + 40 * i, *[s[n] for n in SEC_FIELDS])
+        for n, o, w in (("VirtualSize", 8, 4), ("RVA", 12, 4), ("SizeOfRawData", 16, 4), ("PointerToRawData", 20, 4), ("PointerToRelocations", 24, 4),
+                        ("NumberOfRelocations", 32, 2)):
+            fields["sec%d.%s" % (i, n)] = (so + 40 * i + o, w, "little")
+    true = dict(e_lfanew=lfanew, NumberOfSections=nsec, SizeOfOptionalHeader=optsize, NumberOfRvaAndSizes=ndirs, SizeOfImage=rva, SizeOfHeaders=hdrsz,
+                rvas=[s["RVA"] for s in secs], section_table=so)
+    return bytes(img), fields, true
+
+
+def tiny_macho_tables(rng, is64):
+    """a thin Mach-O image of a few hundred bytes whose load commands describe tables: one __TEXT segment with one section,
+    LC_SYMTAB (two nlist entries, a string table), LC_UUID.  Returns (bytes, fields, true) - fields: name -> (file offset, width,
+    'little') of ncmds, sizeofcmds, cmd<k>.cmdsize, nsects, symoff, nsyms, stroff, strsize; true: their intact values."""
+    hsz = 32 if is64 else 28
+    segf, segn = SEG64 if is64 else SEG32
+    secf, secn = SECT64 if is64 else SECT32
+    nl = 16 if is64 else 12
+    lcs = [("seg", struct.calcsize(segf) + struct.calcsize(secf)), ("symtab", 24), ("uuid", 24)]
+    sizeofcmds = sum(z for _, z in lcs)
+    text = hsz + sizeofcmds
+    ntext = rng.randrange(8, 33)
+    symoff = (text + ntext + 7) // 8 * 8
+    strtab = b"\0_main\0_x\0"
+    stroff = symoff + 2 * nl
+    total = stroff + len(strtab)
+    img = bytearray(rng.randbytes(total))
+    va = rng.randrange(1, 256) * 0x1000
+    fields, true = {"ncmds": (16, 4, "little"), "sizeofcmds": (20, 4, "little")}, {"ncmds": len(lcs), "sizeofcmds": sizeofcmds, "cmdsize": [z for _, z in lcs]}
+    o = hsz
+    for k, (kind, z) in enumerate(lcs):
+        fields["cmd%d.cmdsize" % k] = (o + 4, 4, "little")
+        if kind == "seg":
+            d = dict(cmd=LC_SEGMENT_64 if is64 else LC_SEGMENT, cmdsize=z, segname=b"__TEXT", vmaddr=va, vmsize=0x1000, fileoffset=0, filesize=total,
+                     maxprot=7, initprot=5, nsects=1, flags=0)
+            struct.pack_into(segf, img, o, *[d[n] for n in segn])
+            fields["nsects"] = (o + struct.calcsize(segf) - 8, 4, "little")
+            cd = dict(sectname=b"__text", segname=b"__TEXT", addr=va + text, size_=ntext, offset=text, align=0, reloff=0, nreloc=0, flags=0x80000400,
+                      reserved1=0, reserved2=0, reserved3=0)
+            struct.pack_into(secf, img, o + struct.calcsize(segf), *[cd[n] for n in secn])
+        elif kind == "symtab":
+            struct.pack_into("<IIIIII", img, o, LC_SYMTAB, z, symoff, 2, stroff, len(strtab))
+            for j, n in enumerate(("symoff", "nsyms", "stroff", "strsize")):
+                fields[n] = (o + 8 + 4 * j, 4, "little")
+            true.update(symoff=symoff, nsyms=2, stroff=stroff, strsize=len(strtab))
+        else:
+            struct.pack_into("<II16s", img, o, LC_UUID, z, rng.randbytes(16))
+        o += z
+    for i, (strx, val) in enumerate(((1, va + text), (7, va + text + 4))):
+        if is64:
+            struct.pack_into("<IBBHQ", img, symoff + 16 * i, strx, 0x0F, 1, 0, val)
+        else:
+            struct.pack_into("<IBBHI", img, symoff + 12 * i, strx, 0x0F, 1, 0, val)
+    img[stroff:stroff + len(strtab)] = strtab
+    vals = [MH_MAGIC_64 if is64 else MH_MAGIC, 0x01000007 if is64 else 7, 3, 2, len(lcs), sizeofcmds, 1] + ([0] if is64 else [])
+    struct.pack_into("<IiiIIII" + ("I" if is64 else ""), img, 0, *vals)
+    true["nsects"] = 1
+    return bytes(img), fields, true
+
+
+def tiny_coff(rng, opthdr=True):
+    """a System V COFF object / executable of a few hundred bytes (filehdr.h / aouthdr.h / scnhdr.h / syms.h): file header,
+    optional a.out header, two section headers (.text with one relocation and one line number entry, .data), raw data,
+    relocation and line number entries, a symbol table of two entries and a string table.  Returns (bytes, fields, true) -
+    fields: name -> (file offset, width, 'little') of f_nscns, f_symptr, f_nsyms, f_opthdr, sec<i>.{s_size, s_scnptr, s_relptr,
+    s_lnnoptr, s_nreloc, s_nlnno}."""
+    osz = 28 if opthdr else 0
+    nsec = 2
+    so = 20 + osz
+    raw0 = so + 40 * nsec
+    n0, n1 = rng.randrange(8, 25) & ~3, rng.randrange(4, 17) & ~3
+    raw1 = raw0 + n0
+    rel = raw1 + n1
+    lnn = rel + 10
+    symptr = lnn + 6
+    strtab = struct.pack("<I", 4 + 12) + b"a_long_name\0"
+    total = symptr + 2 * 18 + len(strtab)
+    img = bytearray(rng.randbytes(total))
+    magic = rng.choice([0x14C, 0x14C, 0x154, 0x175])
+    struct.pack_into("<HHiiiHH", img, 0, magic, nsec, rng.getrandbits(30), symptr, 2, osz, 0x0104 | (2 if opthdr else 0))
+    if opthdr:
+        struct.pack_into("<hhiiiIii", img, 20, 0o413, 0, n0, n1, 0, 0x1000, 0x1000, 0x2000)
+    struct.pack_into("<8sIIIiiiHHi", img, so, b".text\0\0\0", 0x1000, 0x1000, n0, raw0, rel, lnn, 1, 1, 0x20)
+    struct.pack_into("<8sIIIiiiHHi", img, so + 40, b".data\0\0\0", 0x2000, 0x2000, n1, raw1, 0, 0, 0, 0, 0x40)
+    struct.pack_into("<iiH", img, rel, 0x1000, 0, 6)
+    struct.pack_into("<iH", img, lnn, 0, 0)
+    struct.pack_into("<8sIhHbB", img, symptr, b"_start\0\0", 0x1000, 1, 0x20, 2, 0)
+    struct.pack_into("<iiIhHbB", img, symptr + 18, 0, 4, 0x2000, 2, 0, 2, 0)
+    img[symptr + 36:] = strtab
+    fields = {"f_nscns": (2, 2, "little"), "f_symptr": (8, 4, "little"), "f_nsyms": (12, 4, "little"), "f_opthdr": (16, 2, "little")}
+    for i in range(nsec):
+        for n, o, w in (("s_size", 16, 4), ("s_scnptr", 20, 4), ("s_relptr", 24, 4), ("s_lnnoptr", 28, 4), ("s_nreloc", 32, 2), ("s_nlnno", 34, 2)):
+            fields["sec%d.%s" % (i, n)] = (so + 40 * i + o, w, "little")
+    true = dict(f_nscns=nsec, f_symptr=symptr, f_nsyms=2, f_opthdr=osz, section_table=so)
+    return bytes(img), fields, true
